@@ -54,3 +54,30 @@ Example starts_eq_budget_nonvacuous :
   | _ => False
   end.
 Proof. vm_compute. repeat split. Qed.
+
+(** ** the budget reaches the controller.  [termination::compile] folds the caller's list of
+    criteria into one record ([Termination.compile]); the budget passed to the controller is the
+    record's.  For every list: compilation succeeds exactly when no kind of criterion occurs
+    twice; a listed budget is the compiled budget, whatever else is listed and in whatever
+    order. *)
+From Cambrian Require Import Termination.
+From Coq Require Import Permutation.
+Theorem listed_budget_is_the_budget :
+  forall l c n, compile l = Some c -> In (KNum n) l -> k_num c = Some n.
+Proof. intros l c n H Hin. destruct (compile_keeps_every_criterion l c H) as [H1 _]. exact (H1 (KNum n) Hin). Qed.
+Print Assumptions listed_budget_is_the_budget.
+
+Theorem criteria_order_does_not_matter : forall l l', Permutation l l' -> compile l = compile l'.
+Proof. exact compile_order_independent. Qed.
+Print Assumptions criteria_order_does_not_matter.
+
+Theorem criteria_compile_iff_no_kind_twice :
+  forall l, (exists c, compile l = Some c) <-> NoDup (map kind l).
+Proof. exact compile_succeeds_iff_no_kind_twice. Qed.
+Print Assumptions criteria_compile_iff_no_kind_twice.
+
+Example budget_then_time_limit :
+  compile [KNum 5%N; KAfter 3600000%N] = Some (mkComp (Some 5%N) None (Some 3600000%N) false) /\
+  compile [KAfter 3600000%N; KNum 5%N] = Some (mkComp (Some 5%N) None (Some 3600000%N) false) /\
+  compile [KNum 5%N; KNum 5%N] = None.
+Proof. vm_compute. repeat split. Qed.
